@@ -800,6 +800,33 @@ func (w *World) rootsOf(v ssa.Value, fr *vframe, depth int, out *[]rootVal, seen
 				}
 			}
 		}
+		if cal == nil && call.Common().IsInvoke() {
+			// an interface method: every module implementation the call graph knows
+			n := 0
+			for _, m := range w.Callees(call) {
+				if !w.InModule(m) || m.Blocks == nil {
+					continue
+				}
+				margs := append([]ssa.Value{call.Common().Value}, args...)
+				if len(m.Params) != len(margs) {
+					continue
+				}
+				nf := &vframe{fn: m, args: margs, up: calFr}
+				for _, b := range m.Blocks {
+					ret, ok := lastInstr(b).(*ssa.Return)
+					if !ok || b == m.Recover || idx >= len(ret.Results) {
+						continue
+					}
+					rv := retResult(ret, idx)
+					if c, isC := rv.(*ssa.Const); isC && c.IsNil() {
+						continue
+					}
+					n++
+					w.rootsOf(rv, nf, depth+1, out, seen)
+				}
+			}
+			return n > 0
+		}
 		if cal == nil || !w.InModule(cal) || cal.Blocks == nil || len(cal.Params) != len(args) {
 			return false
 		}
@@ -832,6 +859,11 @@ func (w *World) rootsOf(v ssa.Value, fr *vframe, depth int, out *[]rootVal, seen
 			return
 		}
 	case *ssa.Call:
+		// the three-address 256-bit operations return their destination
+		if _, isZ := mutatesZ(x.Common()); isZ && len(x.Common().Args) > 0 {
+			w.rootsOf(x.Common().Args[0], fr, depth+1, out, seen)
+			return
+		}
 		if x.Common().Signature().Results().Len() == 1 {
 			if _, isB := x.Common().Value.(*ssa.Builtin); !isB && through(x, 0) {
 				return
